@@ -112,6 +112,17 @@ func zzIntInterval(s *zzSpec) (float64, float64) {
 	return lo, hi
 }
 
+// zzNarrowestMax: the largest value of the narrowest Go integer type that holds [lo, hi]
+// (unsigned when lo >= 0); 2^63 when only the 64-bit types do.
+func zzNarrowestMax(lo, hi float64) float64 {
+	const big = 9223372036854775808.0
+	u := zzvrt.IteF(hi <= 255, 255, zzvrt.IteF(hi <= 65535, 65535, zzvrt.IteF(hi <= 4294967295, 4294967295, big)))
+	s := zzvrt.IteF(zzvrt.And(lo >= -128, hi <= 127), 127,
+		zzvrt.IteF(zzvrt.And(lo >= -32768, hi <= 32767), 32767,
+			zzvrt.IteF(zzvrt.And(lo >= -2147483648, hi <= 2147483647), 2147483647, big)))
+	return zzvrt.IteF(lo >= 0, u, s)
+}
+
 // HarnessL3: the whole generator on a symbolic schema, the emitted program on a symbolic
 // document, every rule family checked as its own facet (shared by C01-C09, C19).
 func HarnessL3() {
@@ -148,7 +159,14 @@ func HarnessL3() {
 	h := zzvrt.Stage2(src)
 	if !zzvrt.S2OK(h) {
 		zzvrt.Note(zzvrt.S2Errors(h))
-		zzvrt.Check("C01.L3.emitted-code-compiles", false)
+		// Recorded finding: with --min-sized-ints an integral multipleOf is emitted as an untyped
+		// constant operand of %, which must fit the (narrow) type chosen from the bounds.
+		multDev := zzvrt.Dev{Name: "minsized-multipleof-overflows-narrow-type", Cond: false}
+		if cfg.MinSizedInts && ps.kind == "integer" && ps.multipleOf != nil && *ps.multipleOf == math.Trunc(*ps.multipleOf) {
+			lo, hi := zzIntInterval(ps)
+			multDev.Cond = *ps.multipleOf > zzNarrowestMax(lo, hi)
+		}
+		zzvrt.Check("C01.L3.emitted-code-compiles", false, multDev)
 		return
 	}
 	zzvrt.Check("C01.L3.emitted-code-compiles", true)
@@ -199,6 +217,7 @@ func HarnessL3() {
 	zzvrt.Check("C03.L3.null-accepted-where-allowed", zzvrt.Implies(zzvrt.And(nd, zzvrt.And(f.nullObject, f.all())), accepted), nullObj)
 	zzvrt.Check("C04.L3.required", zzvrt.Implies(zzvrt.And(base, f.others("req")), zzvrt.Iff(accepted, f.req)))
 	zzvrt.Check("C05.L3.bounds", zzvrt.Implies(zzvrt.And(base, f.others("num")), zzvrt.Iff(accepted, f.num)), refDev)
+	zzvrt.Check("C05.L3.multiple-of", zzvrt.Implies(zzvrt.And(base, f.others("mult")), zzvrt.Iff(accepted, f.mult)), refDev)
 	zzvrt.Check("C06.L3.length-pattern", zzvrt.Implies(zzvrt.And(zzvrt.And(nd, zzvrt.And(noItems, zzvrt.Not(f.nullObject))), f.others("str")), zzvrt.Iff(accepted, f.str)), bytesDev, refDev)
 	zzvrt.Check("C07.L3.array-limits", zzvrt.Implies(zzvrt.And(zzvrt.And(nd, zzvrt.And(noBytes, zzvrt.Not(f.nullObject))), f.others("arr")), zzvrt.Iff(accepted, f.arr)), items, nested, refArr)
 	zzvrt.Check("C08.L3.enum", zzvrt.Implies(zzvrt.And(base, f.others("enum")), zzvrt.Iff(accepted, f.enum)))
